@@ -204,12 +204,16 @@ where
         return;
     }
     let q = op.qs[0];
-    if !(0.0..=1.0).contains(&q) {
+    if q.is_nan() {
         return;
     }
     let lanes = w.lanes(op.axis);
     let n = w.view_shape()[op.axis];
-    if n == 0 {
+    if n == 0 || !(0.0..=1.0).contains(&q) {
+        // error paths: the NaN-skipping form must fail exactly like the plain form does on the same request
+        if prop == Prop::C14 {
+            error_agreement(cx, scn, w, op, q);
+        }
         return;
     }
     if lanes.is_empty() {
@@ -316,6 +320,47 @@ where
         for x in r.iter() {
             cx.dg.evi(x.to_raw());
         }
+    }
+}
+
+fn nd_plain_err<P: OrdElem, D: Dimension + RemoveAxis>(mut a: ndarray::Array<P, D>, axis: usize, q: f64, strat: Strat) -> Result<(), String> {
+    with_strat!(strat, i => a.quantile_axis_mut(Axis(axis), n64(q), i)).map(|_| ()).map_err(|e| format!("{:?}", e))
+}
+
+fn error_agreement<T: NanElem>(cx: &mut Ctx, scn: &Scenario, w: &mut World<T>, op: &Op, q: f64)
+where
+    T::NotNan: NnBounds,
+{
+    let (axis, strat, sd) = (op.axis, op.strat, scn.static_dim);
+    cx.stats.probe("error_path_request");
+    let shape = w.view_shape();
+    let (out, sess) = with_policy(&op.policy, 4096, || with_dim!(w.view_mut(), sd, |vv| nd_skipnan(vv, axis, q, strat)));
+    cx.note_draws(op.policy.kind, &sess.draws);
+    // the plain operation on an array of the same shape (contents are irrelevant: the request is rejected first)
+    let total: usize = shape.iter().product();
+    let filler = T::plain_of_raw(scn.elem.raw_of_int(1));
+    let plain = ArrayD::from_shape_vec(IxDyn(&shape), vec![filler; total]).unwrap();
+    let (o2, _s2) = with_policy(&op.alt, 4096, || with_dim!(plain, sd, |pp| nd_plain_err(pp, axis, q, strat)));
+    let a = match out {
+        Outcome::Done(r) => r.map(|_| ()),
+        Outcome::Panicked(m) => Err(format!("panic: {}", m)),
+        Outcome::NoProgress => Err("no progress".into()),
+    };
+    let b = match o2 {
+        Outcome::Done(r) => r,
+        Outcome::Panicked(m) => Err(format!("panic: {}", m)),
+        Outcome::NoProgress => Err("no progress".into()),
+    };
+    let same = match (&a, &b) {
+        (Ok(()), Ok(())) => true,
+        (Err(x), Err(y)) => x == y || (x.starts_with("panic") && y.starts_with("panic")),
+        _ => false,
+    };
+    if !same {
+        cx.fail(
+            "skipnan-vs-plain:error",
+            format!("quantile_axis_skipnan_mut(axis {}, q={:?}) on shape {:?} gives {:?}, the plain quantile_axis_mut on the same request gives {:?}", axis, q, shape, a, b),
+        );
     }
 }
 
@@ -525,9 +570,10 @@ where
             }
             for (l, lane) in lanes.iter().enumerate() {
                 let lp: Vec<i64> = lane.iter().map(|&c| before[c]).collect();
-                let want = sorted_copy(filtered(ty, &lp));
-                if sorted_copy(o.per_lane[l].clone()) != want {
-                    cx.fail("skipnan-fold-axis", format!("fold_axis_skipnan axis {}: lane {} = {:?} folded {:?}, the non-missing elements are {:?}", op.axis, l, pretty(scn, &lp), pretty(scn, &o.per_lane[l]), pretty(scn, &want)));
+                // the plain fold_axis combines the elements of a lane in lane order
+                let want = filtered(ty, &lp);
+                if o.per_lane[l] != want {
+                    cx.fail("skipnan-fold-axis", format!("fold_axis_skipnan axis {}: lane {} = {:?} folded {:?} (in this order), the non-missing elements in lane order are {:?}", op.axis, l, pretty(scn, &lp), pretty(scn, &o.per_lane[l]), pretty(scn, &want)));
                     return;
                 }
             }
